@@ -138,6 +138,63 @@ def cache_keys(ctx):
     ctx.floor("R08.5", 5)
 
 
+def origin_tuple_field(prov, f, op, depth=8):
+    """follow copies / borrows / clones of an operand back to a place `base.k` of a tuple: returns k (str) or None"""
+    d = prov.defs(f)
+    pl = op.place
+    for _ in range(depth):
+        if pl is None:
+            return None
+        tf = [pr for pr in pl.proj if pr[0] == "field" and pr[2] == "tuple"]
+        if tf:
+            return tf[-1][1]
+        ds = [x for x in d.defs.get(pl.local, ()) if x[0] in ("stmt", "call")]
+        if len(ds) != 1:
+            return None
+        kind, site = ds[0]
+        if kind == "stmt":
+            if site.rv.k in ("ref", "rawptr") and site.rv.place is not None:
+                pl = site.rv.place
+            elif site.rv.k in ("use", "cast") and site.rv.ops and site.rv.ops[0].place is not None:
+                pl = site.rv.ops[0].place
+            else:
+                return None
+        else:
+            nm = (site.path or "").rsplit("::", 1)[-1]
+            if nm in ("clone", "to_owned", "to_string", "as_str", "deref", "as_ref", "borrow", "into", "from") and site.args and site.args[0].place is not None:
+                pl = site.args[0].place
+            else:
+                return None
+    return None
+
+
+def pair_positions(ctx):
+    """R08.8 positional fidelity: when the decoder or the type encoder rebuilds a pair from the components of a pair
+    (`((module, name), ty)` keys of core module imports, (name, type) entries …), component k of the new tuple comes from
+    component k of the old one; two same-typed components copied crosswise swap e.g. a core import's module and field name."""
+    db, prov = ctx.db, ctx.prov
+    n = 0
+    for f in sorted(db.fns.values(), key=lambda x: x.id):
+        if not (f.id.startswith("wac_types::package::") or f.id.startswith("wac_graph::encoding::")) or f.from_expansion:
+            continue
+        for s in f.stmts():
+            if not (s.rv.k == "agg" and s.rv.j.get("tuple") and len(s.rv.ops) >= 2):
+                continue
+            org = [origin_tuple_field(prov, f, o) if o.place is not None else None for o in s.rv.ops]
+            tys = [f.local_ty(o.place.local) if o.place is not None and not o.place.proj else None for o in s.rv.ops]
+            if sum(1 for x in org if x is not None) < 2:
+                continue
+            n += 1
+            ctx.touch(f)
+            swapped = [(i, j) for i in range(len(org)) for j in range(i + 1, len(org))
+                       if org[i] is not None and org[j] is not None and org[i] == str(j) and org[j] == str(i) and tys[i] is not None and tys[i] == tys[j]]
+            ctx.ob("R08.8", "pair|%s@%s" % (f.id.split("::", 1)[1], s.span.rsplit(":", 2)[-2]), not swapped,
+                   "components are copied position by position" if not swapped else
+                   "components %s of the rebuilt tuple are copied crosswise from the source tuple (same type `%s`): the two names change places" % (swapped, tys[swapped[0][0]]),
+                   site="%s in %s" % (s.span, f.id))
+    ctx.ob("R08.8", "count", n >= 1, "rebuilt pairs checked: %d" % n, nontrivial=False)
+
+
 def run(ctx):
     db, prov = ctx.db, ctx.prov
     struct_conversions(ctx)
@@ -158,4 +215,9 @@ def run(ctx):
         ok = got == want and not panics
         ctx.ob("R08.6", "total|TypeEncoder::" + name, ok, "every ItemKind a world can import/export is re-encoded (no panicking fallback)" if ok else
                "TypeEncoder::%s does not handle %s (panicking arms: %d)" % (name, sorted(want - got), len(panics)), site=f.span)
+    pair_positions(ctx)
     c01.alias_reset(c01.ctx_alias(ctx, "R08.7"))
+    c01.index_capture(c01.ctx_alias(ctx, "R08.7"))
+    import cachewriters
+    cachewriters.check(ctx, "R08.9")
+
